@@ -97,7 +97,7 @@ def run(ctx, P):
 
 
 META = dict(
-    bounds=dict(quick=f"N=3 candles, timeframes T5/H12/D1 (gaps longer than a day inside), timestamps spanning at most {MAXGAP} buckets (one or two gaps of any size inside), schedules: construction (+1 recollapse), one-by-one, 1 preloaded, every two-chunk split; plus fill under a 1- or 3-bucket lifespan (span <= 8 buckets) with N=4 and single / paired / 1+3 / 3+1 appends",
+    bounds=dict(quick=f"N=3 candles, timeframes S10/T5/H12/D1 (gaps longer than a day inside), timestamps spanning at most {MAXGAP} buckets (one or two gaps of any size inside), schedules: construction (+1 recollapse), one-by-one, 1 preloaded, every two-chunk split; plus fill under a 1- or 3-bucket lifespan (span <= 8 buckets) with N=4 and single / paired / 1+3 / 3+1 appends",
                 thorough=f"N=4, timeframes S5,T1,T5,T45,H1,H4,H12,D1,D2, span <= {MAXGAP} buckets"),
     stubs=["datetime -> integer seconds", "UTC", "max/min -> If-terms"],
     assumptions=["gaps longer than the span bound are outside the claim (the fill loop runs once per missing bucket)"],
